@@ -173,6 +173,7 @@ RS = {
     "match": _s("let {v} = match acc {{ {0} => emit({1}), _ => emit(acc) }};", ["int", "any"], "match"),
     "constup": _s("const LOCAL_MAX_{n}: {ty0} = {0};", ["any"], "const", "const"),
     "staticup": _s("static LOCAL_LIMIT_{n}: {ty0} = {0};", ["any"], "const", "const"),
+    "staticmutup": _s("static mut LOCAL_COUNT_{n}: {ty0} = {0};", ["any"], "const", "const"),
     "if": _b("if acc > {0} {{", ["any"], "compare"),
     "while": _b("while acc < {0} {{", ["any"], "compare"),
     "loop": _b("loop {{", [], "-"),
@@ -395,7 +396,8 @@ def _item(w, it, scope):
             kw = "export const" if it.get("export") else "const"
             line = w.emit(0, f"{kw} {cname} = {src};")
         else:
-            kw = "static" if it.get("static") else "const"
+            # const / static items in their spellings (visibility, mutability): all are "const or static items"
+            kw = ["const", "static", "static mut", "pub static", "pub const", "pub(crate) static"][int(it.get("static") or 0) % 6]
             ty = "f64" if _is_float_text(lit["text"]) else "i64"
             line = w.emit(0, f"{kw} {cname}: {ty} = {src};")
         w.slot(line, lit, "const", "const", scope, {"tpl": "module-const"})
